@@ -4,6 +4,7 @@ import (
 	"fmt"
 	"go/ast"
 	"go/constant"
+	"go/token"
 	"os"
 	"path/filepath"
 	"regexp"
@@ -142,4 +143,134 @@ func ruleR04j(c *Ctx) {
 		}
 	}
 	c.floor("R04j", "characters in either escape table", 5, len(chars))
+}
+
+var reTruncRoom = regexp.MustCompile(`(?s)soy\.\$\$truncate\s*=\s*function.*?if\s*\(\s*maxLen\s*(>=|>)\s*(\d+)\s*\)\s*\{\s*maxLen\s*-=\s*(\d+)`)
+
+// R04p: the two truncate implementations make room for the ellipsis under the same condition and by the same
+// amount. JavaScript (soy.$$truncate in the runtime library of the tree): `if (maxLen > K) maxLen -= D`.
+// Go (directiveTruncate): the branch that shortens the limit, with its condition normalised (constants and
+// len of constants folded). A different threshold changes the output at exactly that limit.
+func ruleR04p(c *Ctx) {
+	p := c.pkg("soyhtml")
+	fd := c.mustFunc("soyhtml", "directiveTruncate")
+	if p == nil || fd == nil {
+		return
+	}
+	info := p.TypesInfo
+	src, err := os.ReadFile(filepath.Join(c.Repo, "soyjs", "lib", "soyutils.js"))
+	if err != nil {
+		c.fatalf("anchor: soyutils.js not readable: %v", err)
+		return
+	}
+	m := reTruncRoom.FindSubmatch(src)
+	if m == nil {
+		c.fatalf("anchor: the ellipsis-room test of soy.$$truncate not found in soyutils.js")
+		return
+	}
+	jsOp := string(m[1])
+	jsK, _ := strconv.ParseInt(string(m[2]), 10, 64)
+	jsD, _ := strconv.ParseInt(string(m[3]), 10, 64)
+	jsMin := jsK + 1 // smallest limit that is shortened
+	if jsOp == ">=" {
+		jsMin = jsK
+	}
+	// Go: the if statement one branch of which subtracts a constant from the limit variable
+	val := func(e ast.Expr) (int64, bool) {
+		if tv, ok := info.Types[e]; ok && tv.Value != nil && tv.Value.Kind() == constant.Int {
+			v, exact := constant.Int64Val(tv.Value)
+			return v, exact
+		}
+		return 0, false
+	}
+	found := 0
+	ast.Inspect(fd.Body, func(x ast.Node) bool {
+		ifs, ok := x.(*ast.IfStmt)
+		if !ok {
+			return true
+		}
+		subIn := func(b ast.Stmt) (string, int64, bool) {
+			var name string
+			var d int64
+			okk := false
+			if b == nil {
+				return "", 0, false
+			}
+			ast.Inspect(b, func(y ast.Node) bool {
+				if inner, isIf := y.(*ast.IfStmt); isIf && inner != ifs {
+					return false
+				}
+				if as, ok := y.(*ast.AssignStmt); ok && as.Tok == token.SUB_ASSIGN && len(as.Lhs) == 1 {
+					if v, ok := val(as.Rhs[0]); ok {
+						name, d, okk = exprKey(as.Lhs[0]), v, true
+					}
+				}
+				return true
+			})
+			return name, d, okk
+		}
+		thenVar, thenD, inThen := subIn(ifs.Body)
+		elseVar, elseD, inElse := subIn(ifs.Else)
+		if inThen == inElse {
+			return true
+		}
+		be, ok := ast.Unparen(ifs.Cond).(*ast.BinaryExpr)
+		if !ok {
+			return true
+		}
+		limit, d := thenVar, thenD
+		if inElse {
+			limit, d = elseVar, elseD
+		}
+		// normalise the condition to "limit OP K"
+		var op token.Token
+		var k int64
+		if exprKey(be.X) == limit {
+			if v, ok := val(be.Y); ok {
+				op, k = be.Op, v
+			} else {
+				return true
+			}
+		} else if exprKey(be.Y) == limit {
+			if v, ok := val(be.X); ok {
+				k = v
+				switch be.Op { // K OP limit  ==  limit OP' K
+				case token.LSS:
+					op = token.GTR
+				case token.LEQ:
+					op = token.GEQ
+				case token.GTR:
+					op = token.LSS
+				case token.GEQ:
+					op = token.LEQ
+				default:
+					return true
+				}
+			} else {
+				return true
+			}
+		} else {
+			return true
+		}
+		// smallest limit for which the subtraction happens
+		var goMin int64
+		switch {
+		case inThen && op == token.GTR:
+			goMin = k + 1
+		case inThen && op == token.GEQ:
+			goMin = k
+		case inElse && op == token.LSS: // shortened when !(limit < K)
+			goMin = k
+		case inElse && op == token.LEQ:
+			goMin = k + 1
+		default:
+			return true
+		}
+		found++
+		c.check(goMin == jsMin && d == jsD, "R04p", "soyhtml.directiveTruncate ellipsis-room", ifs.Pos(),
+			fmt.Sprintf("both backends shorten the limit by %d from a limit of %d on", jsD, jsMin),
+			fmt.Sprintf("the Go directive shortens the limit by %d from a limit of %d on, the JavaScript runtime by %d from %d on: at the limits in between the two backends print different text", d, goMin, jsD, jsMin))
+		return true
+	})
+	c.floor("R04p", "ellipsis-room tests in directiveTruncate", 1, found)
 }
